@@ -53,6 +53,14 @@ impl Ntv2Grid {
             let (name, parent, grid) = subgrid::ntv2_subgrid(&parser, offset)?;
             offset += HEADER_SIZE + grid.grid.len() / 2 * NODE_SIZE;
 
+            // Sub grid names identify the nodes of the hierarchy: a repeated name, or a sub grid
+            // that is its own parent, would make `find_grid` descend into the same grid forever
+            if parent == name || subgrids.contains_key(&name) {
+                return Err(Error::Invalid(format!(
+                    "NTv2 sub grid name '{name}' repeated or used as its own parent"
+                )));
+            }
+
             // The NTv2 spec does not guarantee the order of subgrids, so we must create
             // a lookup table from parent to children to make it possible for `find_grid` to
             // have a start point for working out which subgrid, if any, contains the point
